@@ -149,22 +149,22 @@ def extract() -> dict:
     defaults, prog = reinit_program()
     feats, dumps = snippet_facts()
     tests = flag_tests()
-    L = ['/- GENERATED on every run by harness/extract/gen.py from',
+    L = ['import BearVerif.Core.Gen',
+         '/- GENERATED on every run by harness/extract/gen.py from',
          '   beartype/_check/cls/call/calldatadecorfunc.py (deinit, reinit), beartype/_util/func/utilfunctest.py and the',
          '   snippet constants of beartype/_data/check/code/{func/datacodefuncwrap,pep/datacodepep342,pep/datacodepep525}.py.',
          '   Do not edit. -/',
-         'namespace BearVerif.Extracted', '',
+         'namespace BearVerif.Extracted', 'open BearVerif.Gen', '',
          '/-- `deinit`: defaults of the four wrapper-code attributes, in program order -/',
          'def genReinitDefaults : List (String × String) := [' + ', '.join(f'({_s(a)}, {_s(v)})' for a, v in defaults) + ']', '',
-         '/-- `reinit`, `if func_wrappee_codeobj:` block, flattened: (guards, attribute, value) in program order -/',
-         'def genReinitProg : List (List (String × Bool) × String × String) := [']
-    L.append(',\n'.join('  ([' + ', '.join(f'({_s(t)}, {_b(p)})' for t, p in g) + f'], {_s(a)}, {_s(v)})' for g, a, v in prog))
+         '/-- `reinit`, `if func_wrappee_codeobj:` block, flattened: guards, attribute, value — in program order -/',
+         'def genReinitProg : List GAssign := [']
+    L.append(',\n'.join('  ⟨[' + ', '.join(f'({_s(t)}, {_b(p)})' for t, p in g) + f'], {_s(a)}, {_s(v)}⟩' for g, a, v in prog))
     L += [']', '', '/-- which CO_* flags each tester reads -/',
           'def genFlagTests : List (String × String) := [' + ', '.join(f'({_s(a)}, {_s(v)})' for a, v in tests) + ']', '',
-          '/-- per snippet: (has yield, has yield from, has await, awaits the decorated callable, calls it); none = unparsable -/',
-          'def genSnippetFeats : List (String × Option (Bool × Bool × Bool × Bool × Bool)) := [']
-    L.append(',\n'.join('  (' + _s(n) + ', ' + ('none' if f is None else 'some (' + ', '.join(_b(x) for x in f) + ')') + ')'
-                        for n, f in feats))
+          '/-- per parsable snippet: has yield, has yield from, has await, awaits the decorated callable, calls it -/',
+          'def genSnippetFeats : List (String × Feat) := [']
+    L.append(',\n'.join('  (' + _s(n) + ', ⟨' + ', '.join(_b(x) for x in f) + '⟩)' for n, f in feats if f is not None))
     L += [']', '', '/-- per snippet: comment-free structural dump (CPython `ast.dump`) of its statements -/',
           'def genSnippetDumps : List (String × String) := [']
     L.append(',\n'.join(f'  ({_s(n)},\n   {_s(d)})' for n, d in dumps))
